@@ -288,3 +288,19 @@ def c05_double_success(rp):                 # fixed 208592d
 
 def c05_stale_cert_options(rp):             # fixed 208592d
     return _c05(rp, 'restrictions_mismatch')
+
+
+# ---- C09 (both repaired in /repo; kept so that a regression is recognised as the same defect)
+
+def c09_mutual_close_deadlock(rp):         # fixed 03faaad
+    if rp.get('kind') != 'seq' or rp.get('problem') not in ('handshake', 'hang'):
+        return False
+    ops, w = rp.get('ops', []), rp.get('window', 256)
+    big = {(o[1], o[2]) for o in ops if o[0] == 'write' and o[3] > w}
+    closed = {(o[1], o[2]) for o in ops if o[0] in ('close', 'abort')}
+    return any(('c', i) in big and ('s', i) in big and ('c', i) in closed and ('s', i) in closed for _, i in big)
+
+
+def c09_orphan_session(rp):                # fixed cd5d87d
+    return (rp.get('kind') == 'seq' and rp.get('problem') == 'order' and 'no connection_lost' in rp.get('what', '')
+            and any(o[0] in ('conn_abort', 'conn_close') for o in rp.get('ops', [])))
